@@ -62,6 +62,9 @@ struct Counters {
     maxsetcap: AtomicI64,
     /// results delivered by a next() call made after the end marker had been received
     again_some: AtomicI64,
+    /// records read from the reader before it was handed to the parallel function (-1: not judged), BufferLimit met
+    pre: AtomicI64,
+    prelim: AtomicBool,
 }
 impl Counters {
     fn new(seed: u64, jitter: bool) -> Counters {
@@ -81,6 +84,8 @@ impl Counters {
             max_lead: AtomicI64::new(0),
             maxsetcap: AtomicI64::new(0),
             again_some: AtomicI64::new(0),
+            pre: AtomicI64::new(0),
+            prelim: AtomicBool::new(false),
         }
     }
     fn jitter(&self) {
@@ -598,17 +603,55 @@ pub struct ApiCase {
     /// > 0: the source fails when the byte at this 1-based offset is due, with error kind `iokind`
     pub iofail: usize,
     pub iokind: String,
+    /// > 0: the reader has a history when it is handed over (see mk_reader)
+    pub prehist: usize,
     /// for long inputs: what the input consists of, [kind, n]: kind 0 = n records with one base, kind 1 = one record with n bases
     pub pattern: Vec<(usize, usize)>,
 }
 
+/// The reader handed to the parallel functions. With `prehist` > 0 it has a history: it was created with a policy that
+/// permits no growth, up to `prehist` records were read from it one by one - stopping at a BufferLimit error -, and the
+/// default policy was installed before the hand-over. Returns the number of records consumed (-1: the history ended in
+/// another error or at the end of the input; such runs are not judged) and whether BufferLimit was met.
+macro_rules! mk_reader {
+    ($fname:ident, $m:ident) => {
+        fn $fname(x: Vec<u8>, chunk: usize, iofail: usize, iokind: &str, cap: usize, prehist: usize) -> (seq_io::$m::Reader<Chunked>, i64, bool) {
+            let src = Chunked::failing(x, chunk, iofail, iokind);
+            if prehist == 0 {
+                return (seq_io::$m::Reader::with_capacity(src, cap), 0, false);
+            }
+            let mut r0 = seq_io::$m::Reader::with_capacity(src, cap).set_policy(seq_io::policy::DoubleUntilLimited::new(8, cap));
+            let mut pre = 0i64;
+            let mut lim = false;
+            while (pre as usize) < prehist {
+                match r0.next() {
+                    Some(Ok(_)) => pre += 1,
+                    Some(Err(seq_io::$m::Error::BufferLimit)) => {
+                        lim = true;
+                        break;
+                    }
+                    _ => {
+                        pre = -1;
+                        break;
+                    }
+                }
+            }
+            (r0.set_policy(seq_io::policy::StdPolicy), pre, lim)
+        }
+    };
+}
+mk_reader!(mk_reader_fasta, fasta);
+mk_reader!(mk_reader_fastq, fastq);
+
 macro_rules! api_runner {
-    ($fname:ident, $m:ident, $pfn:ident, $pinit:ident, $recjson:path, $variant:ident) => {
+    ($fname:ident, $m:ident, $pfn:ident, $pinit:ident, $recjson:path, $variant:ident, $mk:ident) => {
         fn $fname(c: &ApiCase, ct: &Arc<Counters>, calls: &Arc<Mutex<Vec<String>>>, works: &Arc<Mutex<Vec<String>>>, ninit: &Arc<(AtomicI64, AtomicI64)>) -> String {
             use seq_io::$m::Record as _;
             let x = c.x.clone();
             let chunk = c.chunk;
             let (iofail, iokind) = (c.iofail, c.iokind.clone());
+            let prehist = c.prehist;
+            let ctp = ct.clone();
             let cap = c.cap;
             let stop_after = c.stop_after;
             let slow = c.slow_consumer;
@@ -665,7 +708,16 @@ macro_rules! api_runner {
                 let r: Result<Option<usize>, ApiErr> = parallel::$pinit(
                     c.nw,
                     c.q,
-                    move || if rfail { Err(ERi) } else { Ok(seq_io::$m::Reader::with_capacity(Chunked::failing(x, chunk, iofail, &iokind), cap)) },
+                    move || {
+                        if rfail {
+                            Err(ERi)
+                        } else {
+                            let (r, pre, lim) = $mk(x, chunk, iofail, &iokind, cap, prehist);
+                            ctp.pre.store(pre, Ordering::SeqCst);
+                            ctp.prelim.store(lim, Ordering::SeqCst);
+                            Ok(r)
+                        }
+                    },
                     move || {
                         let k = n1.0.fetch_add(1, Ordering::SeqCst) + 1;
                         if k == rf {
@@ -691,7 +743,9 @@ macro_rules! api_runner {
                     Err(e) => api_err_json(&e),
                 }
             } else {
-                let reader = seq_io::$m::Reader::with_capacity(Chunked::failing(x, chunk, iofail, &iokind), cap);
+                let (reader, pre, lim) = $mk(x, chunk, iofail, &iokind, cap, prehist);
+                ctp.pre.store(pre, Ordering::SeqCst);
+                ctp.prelim.store(lim, Ordering::SeqCst);
                 let mut func = func;
                 let r = parallel::$pfn(reader, c.nw, c.q, move |rec: seq_io::$m::RefRecord, d: &mut RecOut| work(rec, d, &mut 0), move |rec: seq_io::$m::RefRecord, d: &mut RecOut| func(rec, d, &mut 0));
                 match r {
@@ -703,15 +757,17 @@ macro_rules! api_runner {
         }
     };
 }
-api_runner!(run_api_fasta, fasta, parallel_fasta, parallel_fasta_init, crate::reader::fa::rec_json, Fasta);
-api_runner!(run_api_fastq, fastq, parallel_fastq, parallel_fastq_init, crate::reader::fq::rec_json, Fastq);
+api_runner!(run_api_fasta, fasta, parallel_fasta, parallel_fasta_init, crate::reader::fa::rec_json, Fasta, mk_reader_fasta);
+api_runner!(run_api_fastq, fastq, parallel_fastq, parallel_fastq_init, crate::reader::fq::rec_json, Fastq, mk_reader_fastq);
 
 macro_rules! sets_runner {
-    ($fname:ident, $m:ident, $recjson:path, $variant:ident) => {
+    ($fname:ident, $m:ident, $recjson:path, $variant:ident, $mk:ident) => {
         /// read_parallel with the real reader as parallel::Reader: the consumer sees whole record sets
         fn $fname(c: &ApiCase, ct: &Arc<Counters>, calls: &Arc<Mutex<Vec<String>>>) -> String {
             use seq_io::$m::Record as _;
-            let reader = seq_io::$m::Reader::with_capacity(Chunked::failing(c.x.clone(), c.chunk, c.iofail, &c.iokind), c.cap);
+            let (reader, pre, lim) = $mk(c.x.clone(), c.chunk, c.iofail, &c.iokind, c.cap, c.prehist);
+            ct.pre.store(pre, Ordering::SeqCst);
+            ct.prelim.store(lim, Ordering::SeqCst);
             let ct2 = ct.clone();
             let ct3 = ct.clone();
             let big = c.big;
@@ -781,15 +837,17 @@ macro_rules! sets_runner {
         }
     };
 }
-sets_runner!(run_sets_fasta, fasta, crate::reader::fa::rec_json, Fasta);
-sets_runner!(run_sets_fastq, fastq, crate::reader::fq::rec_json, Fastq);
+sets_runner!(run_sets_fasta, fasta, crate::reader::fa::rec_json, Fasta, mk_reader_fasta);
+sets_runner!(run_sets_fastq, fastq, crate::reader::fq::rec_json, Fastq, mk_reader_fastq);
 
 macro_rules! records_runner {
-    ($fname:ident, $m:ident, $recjson:path, $variant:ident) => {
+    ($fname:ident, $m:ident, $recjson:path, $variant:ident, $mk:ident) => {
         /// parallel_records: the generic per-record function (outputs are passed to the consumer by shared reference)
         fn $fname(c: &ApiCase, ct: &Arc<Counters>, calls: &Arc<Mutex<Vec<String>>>) -> String {
             use seq_io::$m::Record as _;
-            let reader = seq_io::$m::Reader::with_capacity(Chunked::failing(c.x.clone(), c.chunk, c.iofail, &c.iokind), c.cap);
+            let (reader, pre, lim) = $mk(c.x.clone(), c.chunk, c.iofail, &c.iokind, c.cap, c.prehist);
+            ct.pre.store(pre, Ordering::SeqCst);
+            ct.prelim.store(lim, Ordering::SeqCst);
             let ct2 = ct.clone();
             let ct3 = ct.clone();
             let big = c.big;
@@ -840,8 +898,8 @@ macro_rules! records_runner {
         }
     };
 }
-records_runner!(run_records_fasta, fasta, crate::reader::fa::rec_json, Fasta);
-records_runner!(run_records_fastq, fastq, crate::reader::fq::rec_json, Fastq);
+records_runner!(run_records_fasta, fasta, crate::reader::fa::rec_json, Fasta, mk_reader_fasta);
+records_runner!(run_records_fastq, fastq, crate::reader::fq::rec_json, Fastq, mk_reader_fastq);
 
 fn run_api(c: &ApiCase, seed: u64) -> String {
     RECOUT_DEFAULTS.store(0, Ordering::SeqCst);
@@ -881,7 +939,7 @@ fn run_api(c: &ApiCase, seed: u64) -> String {
     let set_sizes: Vec<usize> = std::panic::catch_unwind(|| {
         let mut v = vec![];
         if c.fmt == "fasta" {
-            let mut r = seq_io::fasta::Reader::with_capacity(&c.x[..], c.cap);
+            let (mut r, _, _) = mk_reader_fasta(c.x.clone(), 0, 0, "other", c.cap, c.prehist);
             let mut set = seq_io::fasta::RecordSet::default();
             while let Some(Ok(())) = r.read_record_set(&mut set) {
                 v.push(set.len());
@@ -890,7 +948,7 @@ fn run_api(c: &ApiCase, seed: u64) -> String {
                 }
             }
         } else {
-            let mut r = seq_io::fastq::Reader::with_capacity(&c.x[..], c.cap);
+            let (mut r, _, _) = mk_reader_fastq(c.x.clone(), 0, 0, "other", c.cap, c.prehist);
             let mut set = seq_io::fastq::RecordSet::default();
             while let Some(Ok(())) = r.read_record_set(&mut set) {
                 v.push(set.len());
@@ -906,7 +964,7 @@ fn run_api(c: &ApiCase, seed: u64) -> String {
     let count = |t: &str, p: &str| -> usize { g.logs.iter().filter(|(n, _)| n.starts_with(t)).map(|(_, e)| e.iter().filter(|v| v["p"] == p).count()).sum() };
     let calls_v = calls.lock().unwrap();
     format!(
-        "{{\"ev\":\"run\",\"chunk\":{},\"big\":{},\"api\":\"{}\",\"fmt\":\"{}\",\"input\":{},\"cap\":{},\"NW\":{},\"Q\":{},\"stop_after\":{},\"rinit_fail\":{},\"recinit_fail_at\":{},\"setinit_fail_at\":{},\"result\":{},\"set_sizes\":{:?},\"calls\":[{}],\"ncalls\":{},\"nbad\":{},\"lead\":{},\"maxsetcap\":{},\"ndefault\":{},\"again_some\":{},\"iofail\":{},\"iokind\":\"{}\",\"nworks\":{},\"nrecinit\":{},\"nsetinit\":{},\"fills_ok\":{},\"senderr\":{},\"sendend\":{},\"recv_ok\":{},\"jobs_started\":{},\"jobs_finished\":{},\"late_events\":{}}}",
+        "{{\"ev\":\"run\",\"chunk\":{},\"big\":{},\"api\":\"{}\",\"fmt\":\"{}\",\"input\":{},\"cap\":{},\"NW\":{},\"Q\":{},\"stop_after\":{},\"rinit_fail\":{},\"recinit_fail_at\":{},\"setinit_fail_at\":{},\"result\":{},\"set_sizes\":{:?},\"calls\":[{}],\"ncalls\":{},\"nbad\":{},\"lead\":{},\"maxsetcap\":{},\"ndefault\":{},\"again_some\":{},\"pre\":{},\"prelim\":{},\"iofail\":{},\"iokind\":\"{}\",\"nworks\":{},\"nrecinit\":{},\"nsetinit\":{},\"fills_ok\":{},\"senderr\":{},\"sendend\":{},\"recv_ok\":{},\"jobs_started\":{},\"jobs_finished\":{},\"late_events\":{}}}",
         c.chunk,
         c.big,
         c.api,
@@ -928,6 +986,8 @@ fn run_api(c: &ApiCase, seed: u64) -> String {
         ct.maxsetcap.load(Ordering::SeqCst),
         RECOUT_DEFAULTS.load(Ordering::SeqCst),
         ct.again_some.load(Ordering::SeqCst),
+        ct.pre.load(Ordering::SeqCst),
+        ct.prelim.load(Ordering::SeqCst),
         c.iofail,
         c.iokind,
         works.lock().unwrap().len(),
@@ -993,6 +1053,7 @@ pub fn cmd_api(suite: &Value, out: &str, seed: u64) {
             chunk: *rng.pick(&[0usize, 0, 0, 1, 7, 100]),
             iofail: 0,
             iokind: "other".into(),
+            prehist: 0,
             pattern: vec![],
             x,
         };
@@ -1008,6 +1069,12 @@ pub fn cmd_api(suite: &Value, out: &str, seed: u64) {
             c.recinit_fail_at = 1 + rng.below(nrec);
             c.stop_after = if rng.chance(1, 5) { 0 } else { 1 + rng.below(nrec) };
             c.cap = *rng.pick(&[3usize, 8, 12, 16, 24, 32]);
+        }
+        if suite["focus"].as_str() == Some("prehist") {
+            c.rinit_fail = false;
+            c.recinit_fail_at = 0;
+            c.setinit_fail_at = 0;
+            c.prehist = 1 + rng.below(3);
         }
         if suite["focus"].as_str() == Some("iofail") {
             c.stop_after = 0;
